@@ -30,6 +30,23 @@ func verifCompile(srcs ...string) (*Tofu, error) {
 	return NewTofu(&reg), nil
 }
 
+// verifCompileNoCheck: like verifCompile without the data reference check (for programs that
+// must fail at render time).
+func verifCompileNoCheck(srcs ...string) (*Tofu, error) {
+	reg := template.Registry{}
+	for i, src := range srcs {
+		f, err := parse.SoyFile("f"+string(rune('0'+i))+".soy", src)
+		if err != nil {
+			return nil, err
+		}
+		if err := reg.Add(f); err != nil {
+			return nil, err
+		}
+	}
+	parsepasses.ProcessMessages(reg)
+	return NewTofu(&reg), nil
+}
+
 func verifMustCompile(srcs ...string) *Tofu {
 	t, err := verifCompile(srcs...)
 	if err != nil {
